@@ -93,6 +93,14 @@ func (o *Origins) acceptEdges(cond *Cond, derived bool) map[Edge]bool {
 					break
 				}
 			}
+			// the boolean result of a helper that is new on this tree (its provenance was expanded, so the
+			// fact no longer names the call): decided on the helper's returns in the calling context
+			if f.Kind == "bool" && f.Cond != nil {
+				if o.newHelperBoolEstablishes(f.Cond, f.Pos, cond) {
+					acc[e] = true
+					break
+				}
+			}
 		}
 	}
 	// tail calls: "return g(...)" passes g's error on untested. Such a return is a success return only
@@ -541,4 +549,149 @@ func (p *Program) globalNonNilError(g *ssa.Global) bool {
 	res := ok && n > 0
 	p.globalErr[g] = res
 	return res
+}
+
+// newHelperBoolEstablishes: v is a boolean result (single result or one element of the result tuple) of a
+// call to a module helper that does not exist on the reference tree; "v == want" establishes cond iff every
+// return of the helper that can yield want either sits behind an accept edge of cond (in the calling
+// context) or returns a value whose outcome want itself implies cond (a comparison, a short-circuit
+// conjunction, or slices.Contains over a literal list, whose false outcome excludes every listed value).
+func (o *Origins) newHelperBoolEstablishes(v ssa.Value, want bool, cond *Cond) bool {
+	if o.depth >= maxSummaryDepth {
+		return false
+	}
+	idx := 0
+	var call *ssa.Call
+	switch x := v.(type) {
+	case *ssa.Extract:
+		c, ok := x.Tuple.(*ssa.Call)
+		if !ok {
+			return false
+		}
+		call, idx = c, x.Index
+	case *ssa.Call:
+		call = x
+	default:
+		return false
+	}
+	callee := call.Call.StaticCallee()
+	if callee == nil || callee.Blocks == nil || callee.Parent() != nil || !o.p.IsNewFunc(callee) || !o.viaOK(cond, callee) || call.Parent() != o.Fn {
+		return false
+	}
+	res := callee.Signature.Results()
+	if idx >= res.Len() || !isBool(res.At(idx).Type()) {
+		return false
+	}
+	co := o.Enter(callee, call)
+	key := summaryKey{callee, cond.Name + fmt.Sprintf("/newbool%d=%v/forall=%s", idx, want, cond.ForAll), co.ctxString()}
+	if r, ok := summaryMemo[key]; ok {
+		return r
+	}
+	if summaryBusy[key] {
+		return false
+	}
+	summaryBusy[key] = true
+	defer delete(summaryBusy, key)
+	acc := co.AcceptEdges(cond)
+	cut := NewCut()
+	for e := range acc {
+		cut.Edges[e] = true
+	}
+	ok, n := true, 0
+	for _, r := range Returns(callee) {
+		rv := r.Results[idx]
+		if k, isC := rv.(*ssa.Const); isC && k.Value != nil {
+			if (k.Value.ExactString() == "true") != want {
+				continue
+			}
+		}
+		n++
+		if reach, _ := ReachFromEntry(callee, r, cut); !reach {
+			continue
+		}
+		// the returned value's outcome implies the condition?
+		if _, isC := rv.(*ssa.Const); !isC && cond.ForAll == "" {
+			var fs []*Fact
+			co.condFacts(rv, want, &fs, 0)
+			fs = append(fs, co.containsFacts(rv, want)...)
+			hit := false
+			for _, f := range fs {
+				if cond.Match(f, co) {
+					hit = true
+					break
+				}
+			}
+			if hit {
+				continue
+			}
+		}
+		ok = false
+		break
+	}
+	if n == 0 {
+		ok = false
+	}
+	summaryMemo[key] = ok
+	return ok
+}
+
+// containsFacts: slices.Contains(list, x) == false over a literal list of constants gives x != k for every
+// listed k. The list may be a parameter bound to a variadic argument list of the calling context.
+func (o *Origins) containsFacts(v ssa.Value, truth bool) []*Fact {
+	c, ok := v.(*ssa.Call)
+	if !ok || truth || o.p.Describe(c).Name != "slices.Contains" || len(c.Call.Args) != 2 {
+		return nil
+	}
+	list, x := c.Call.Args[0], c.Call.Args[1]
+	ctx := o
+	for i := 0; i < 3; i++ {
+		prm, isP := list.(*ssa.Parameter)
+		if !isP || ctx.caller == nil || ctx.call == nil {
+			break
+		}
+		found := false
+		for j, p := range ctx.Fn.Params {
+			if p == prm && j < len(ctx.call.Common().Args) && !ctx.call.Common().IsInvoke() {
+				list, ctx, found = ctx.call.Common().Args[j], ctx.caller, true
+				break
+			}
+		}
+		if !found {
+			break
+		}
+	}
+	sl, ok := list.(*ssa.Slice)
+	if !ok {
+		return nil
+	}
+	al, ok := sl.X.(*ssa.Alloc)
+	if !ok {
+		return nil
+	}
+	arr, ok := al.Type().Underlying().(*types.Pointer).Elem().Underlying().(*types.Array)
+	if !ok {
+		return nil
+	}
+	var out []*Fact
+	n := 0
+	for _, ref := range *al.Referrers() {
+		ia, ok := ref.(*ssa.IndexAddr)
+		if !ok {
+			continue
+		}
+		for _, r2 := range *ia.Referrers() {
+			if st, ok := r2.(*ssa.Store); ok && st.Addr == ia {
+				k := ctx.Of(st.Val)
+				if k.K != "const" {
+					return nil
+				}
+				n++
+				out = append(out, &Fact{Kind: "cmp", Pos: false, Op: token.EQL, A: o.Of(x), B: k, Cond: v})
+			}
+		}
+	}
+	if int64(n) != arr.Len() {
+		return nil
+	}
+	return out
 }
